@@ -157,7 +157,8 @@ class MySQLLoadQueryBuilder:
         return querystring
 
     def _load_file_sql(self, ctx: SqlContext) -> str:
-        return "LOAD DATA LOCAL INFILE '{}'".format(self._load_file)
+        # the file name is a string literal: quotes and (MySQL) backslashes in it are escaped like in any other literal
+        return "LOAD DATA LOCAL INFILE {}".format(ValueWrapper.get_formatted_value(self._load_file, ctx))
 
     def _into_table_sql(self, ctx: SqlContext) -> str:
         table = cast(Table, self._into_table)
